@@ -372,6 +372,7 @@ def cmd_load(req):
                     res["incomplete"].append(f"{mn}.{name}")
     res["all"] = list(getattr(pkg, "__all__", []))
     res["exported"] = [n for n in vars(pkg) if not n.startswith("_")]
+    res["all_missing"] = [n for n in res["all"] if not hasattr(pkg, n)]  # C04: names of __all__ that are not attributes
     STATE.update(pkg=pkg, mods=mods)
     cname = req.get("client_name", "Client")
     cls = getattr(pkg, cname, None)
